@@ -1450,7 +1450,11 @@ ReorderDataCallback(DataNode & node, void * userData)
    if (indexNode)
    {
       DataNodeRef childNodeRef;
-      if (indexNode->GetChild(node.GetNodeName(), childNodeRef).IsOK()) (void) indexNode->ReorderChild(childNodeRef, *static_cast<const String *>(userData), this);
+      if (indexNode->GetChild(node.GetNodeName(), childNodeRef).IsOK())
+      {
+         (void) indexNode->ReorderChild(childNodeRef, *static_cast<const String *>(userData), this);
+         _indexingPresent = true;  // ReorderChild() may have demand-allocated an index:  disable optimization in GetDataCallback()
+      }
    }
    return node.GetDepth();
 }
@@ -1844,6 +1848,7 @@ StorageReflectSession :: CloneDataNodeSubtree(const DataNode & node, const Strin
             const String & nodeName = (*index)[i]()->GetNodeName();
             if (clone->HasChild(nodeName)) MRETURN_ON_ERROR(clone->InsertIndexEntryAt(writeIdxCounter++, this, nodeName));
          }
+         _indexingPresent = true;  // disable optimization in GetDataCallback()
       }
       else return B_DATA_NOT_FOUND;
    }
